@@ -1567,7 +1567,8 @@ class Tr:
                 return self.assign(key, f"({cname(key)} ++ [{x}])", env[key], env, pad, rest, fin, ind)
             if how == "extend":
                 # (tsmall) xs.extend(ys): the items of ys appended in order (ys a list that is not xs itself)
-                if key not in env or not self.is_list(env[key]) or env[key] == "FS" or len(c.args) != 1 or c.keywords:
+                if key not in env or not self.is_list(env[key]) or env[key] == "FS" or len(c.args) != 1 or c.keywords \
+                        or key in self.pyargs:
                     raise Unsupported(f"statement {ast.unparse(s)[:80]}")
                 if self.item_of(env[key]) in self.records:
                     raise Unsupported("extend of a list of mutable records")
@@ -2571,6 +2572,19 @@ class Tr:
             if isinstance(sub, ast.Attribute) and isinstance(sub.ctx, (ast.Store, ast.Del)) and \
                     isinstance(sub.value, ast.Name) and sub.value.id == "self" and sub.attr not in declared:
                 raise Unsupported(f"class {cd.name} stores self.{sub.attr}, which is not a declared field")
+        mutable = set(self.spec.get("mutable_fields", ())) | set(self.spec.get("ignore_stores", {}))
+        for n in cd.body:
+            # outside __init__, only the fields the spec declares mutable are ever stored again
+            if isinstance(n, (ast.FunctionDef, ast.AsyncFunctionDef)) and n.name != "__init__":
+                for sub in ast.walk(n):
+                    if isinstance(sub, ast.Attribute) and isinstance(sub.ctx, (ast.Store, ast.Del)) and \
+                            sub.attr in {f[0] for f in rd["fields"]} and sub.attr not in mutable:
+                        raise Unsupported(f"{cd.name}.{n.name} stores .{sub.attr}, not declared a mutable field")
+        for sub in ast.walk(cd):
+            # no attribute store that is not spelled `self.f = ..`
+            if (isinstance(sub, ast.Name) and sub.id in ("setattr", "delattr", "vars")) or \
+                    (isinstance(sub, ast.Attribute) and sub.attr in ("__dict__", "__setattr__", "__delattr__")):
+                raise Unsupported(f"class {cd.name} uses {ast.unparse(sub)[:30]}")
         if [ast.unparse(b) for b in cd.bases] != list(self.spec.get("bases", [])) or cd.keywords:
             raise Unsupported(f"the base classes of {cd.name} are not {self.spec.get('bases', [])}")
         for d in cd.decorator_list:
